@@ -16,6 +16,13 @@ and the Go types of a scenario). An outcome is `ok:none` (file removed), `ok:<na
 flowing callee (`regen_congr` against the empty file), or the from-scratch file F is a fixpoint of the pass
 with nothing left undefined and the old file agrees with F on every flowing callee (`regen_one_pass`).
 
+  op <id> regenall (<pkg>…) (<row>…)
+      pkg = (<package> (<call>…) (<old>…))         the packages of one invocation IN GENERATION ORDER (the order is the
+                                                    answer of op `genorder`, model G/Order), each with its own old file;
+                                                    function names are numbered across the packages
+    → model=<package>=<outcome>;…                  per processed package what `Reload.invocation` leaves; the first
+                                                    failing package is the last one listed (the run ends there)
+
 The table must be closed: every (plugin, argument types) the loop can ask for — argument types ranging
 over what the old file declares and what the rows can produce — has a row; otherwise the answer is
 `incomplete=<plugin>:<type>,…;…` and nothing is computed (never a default).
@@ -123,7 +130,32 @@ def mustEqualScratch (gen : GenFn) (calls : List Call) (old : Derived) : Bool :=
      | _ => false) && agreeOnB calls old F
   | _ => false
 
+def parsePkg : SExp → Option (PkgRun × Derived)
+  | .list [p, .list cs, .list os] => do
+    let p ← nat? p
+    let calls ← cs.mapM parseCall
+    let old ← os.mapM parseOld
+    pure (⟨p, calls⟩, old)
+  | _ => none
+
+def runAllOp (args : List SExp) : String :=
+  match args with
+  | [.list ps, .list rs] =>
+    match ps.mapM parsePkg, rs.mapM parseRow with
+    | some pkgs, some rows =>
+      if rows.any (fun r => rows.lookup r.1 != some r.2) then "bad-op" else
+      if (pkgs.map (·.1.id)).eraseDups.length != pkgs.length then "bad-op" else
+      match closure (pkgs.flatMap (·.1.calls)) rows (pkgs.flatMap (·.2)) with
+      | [] =>
+        let res := invocation (genOf rows) (pkgs.map fun p => (p.1.id, p.2)) (pkgs.map (·.1))
+        "model=" ++ ";".intercalate (res.map fun (p, o) => s!"{p}=" ++ showOutcome o)
+      | missing =>
+        "incomplete=" ++ ";".intercalate (missing.map fun (p, ts) => s!"{p}:" ++ ",".intercalate (ts.map toString))
+    | _, _ => "bad-op"
+  | _ => "bad-op"
+
 def run (_ : DState) (name : String) (args : List SExp) : Option String :=
+  if name == "regenall" then some (runAllOp args) else
   if name != "regen" then none else
   match args with
   | [.list cs, .list rs, .list os] =>
